@@ -97,6 +97,22 @@ func init() {
 			t, _, _ := intTerm(args[1])
 			return bigSet(args[0], t)
 		},
+		"(*math/big.Int).SetBits": func(fr *frame, args []value) value {
+			// little-endian 64-bit words (concrete or symbolic), sign cleared
+			ws, _ := args[1].([]value)
+			t := sym.Int64(0)
+			for k, w := range ws {
+				if _, lazy := w.(*lazyWords); lazy {
+					panic(abortPath{"SetBits of the word slice of a symbolic big.Int"})
+				}
+				wt, _, ok := intTerm(w)
+				if !ok {
+					panic(abortPath{fmt.Sprintf("SetBits word %T", w)})
+				}
+				t = sym.Add(t, sym.Mul(wt, sym.Int(new(big.Int).Lsh(big.NewInt(1), uint(64*k)))))
+			}
+			return bigSet(args[0], t)
+		},
 		"(*math/big.Int).Cmp": func(fr *frame, args []value) value {
 			return mkInt(cmpTerm(bigGet(args[0]), bigGet(args[1])), types.Int)
 		},
